@@ -438,3 +438,29 @@ def mpci1_inputs(seed=0, tier='quick'):
 
 
 GENS.update({'mpci2_inputs': mpci2_inputs, 'mpci1_inputs': mpci1_inputs})
+
+
+def bitcount_inputs(seed=0, tier='quick'):
+    rng = random.Random(seed + 13)
+    for k in list(range(0, 330)) + [400, 511, 512, 513, 1000, 1023, 1024, 1025, 4096, 10000, 65536, 100003]:
+        for d in (-1, 0, 1):
+            n = (1 << k) + d
+            if n >= 0:
+                yield dict(n=n, x=n)
+        yield dict(n=(1 << k) | rng.getrandbits(k) if k else 1, x=(1 << k) | rng.getrandbits(k) if k else 1)
+    for n in range(0, 2050):
+        yield dict(n=n, x=n)
+
+
+def isqrt_inputs(seed=0, tier='quick'):
+    rng = random.Random(seed + 14)
+    for n in range(0, 3000):
+        yield dict(x=n)
+    for k in (10, 31, 32, 33, 52, 53, 54, 63, 64, 65, 100, 127, 128, 129, 200, 599, 600, 601, 1000, 4000):
+        for d in (-2, -1, 0, 1, 2):
+            yield dict(x=(1 << k) + d)
+            r = (1 << (k // 2)) + rng.getrandbits(max(k // 2 - 1, 1))
+            yield dict(x=r * r + d)
+
+
+GENS.update({'bitcount_inputs': bitcount_inputs, 'isqrt_inputs': isqrt_inputs})
